@@ -21,11 +21,11 @@ def path_value(name, level, change, is_log, k):
     return level * change ** k if is_log else level + change * k
 
 
-def check(chk, ident, out, split, nvariants, flat_at="create", solver=None, start=1.5):
+def check(chk, ident, out, split, nvariants, flat_at="create", solver=None, start=1.5, alt=False):
     m_ = out["m"]
     payload = {"kind": "steady", "id": ident, "src": list(out["src"]), "split_into_blocks": split, "variants": nvariants}
-    tag = "steady:%s:%s%s" % (ident, {None: "default", True: "blocks", False: "one-system"}[split], "" if flat_at == "create" else ":flat-at-solve") + ("" if solver is None else ":" + solver) + ("" if start == 1.5 else ":start=%g" % start)
-    desc = ("" if solver is None else "solver=%s " % solver) + ("" if start == 1.5 else "start=%g " % start) + "model %s (%s) linear=%s flat=%s split_into_blocks=%s variants=%d" % (ident, " ".join(out["src"][-len(m_["eqs"]):]), m_["linear"], m_["flat"], split, nvariants)
+    tag = "steady:%s:%s%s" % (ident, {None: "default", True: "blocks", False: "one-system"}[split], "" if flat_at == "create" else ":flat-at-solve") + ("" if solver is None else ":" + solver) + ("" if start == 1.5 else ":start=%g" % start) + (":alt-variant" if alt else "")
+    desc = ("(variant 1 under the alternative parameter values %s) " % (_plain(m_["alt"]["pars"]),) if alt else "") + ("" if solver is None else "solver=%s " % solver) + ("" if start == 1.5 else "start=%g " % start) + "model %s (%s) linear=%s flat=%s split_into_blocks=%s variants=%d" % (ident, " ".join(out["src"][-len(m_["eqs"]):]), m_["linear"], m_["flat"], split, nvariants)
     try:
         # the flat flag can be given when the model is created or when the steady state is solved
         m = ir.Simultaneous.from_string("\n".join(out["src"]) + "\n", linear=bool(m_["linear"]), flat=bool(m_["flat"]) and flat_at == "create")
@@ -33,14 +33,20 @@ def check(chk, ident, out, split, nvariants, flat_at="create", solver=None, star
             m.alter_num_variants(nvariants)
         if len(m_["pars"]):
             m.assign(**{n: float(fr(v)) for (n, v) in m_["pars"]})
+        if alt:
+            base = dict(m_["pars"])
+            m.assign(**{n: [float(fr(base[n])), float(fr(v))] for (n, v) in m_["alt"]["pars"]})
         m.assign(**{n: start for n in m_["vars"]})
         for (n, v) in m_.get("assign", ()):                  # levels that stay as assigned (unit roots)
             m.assign(**{n: float(fr(v))})
         for (n, lv_, ch_) in m_["xvars"]:                     # exogenous variables: assigned level and (in flat mode: to be ignored) change
             m.assign(**{n: (float(fr(lv_)), float(fr(ch_)))})
         plan = None
-        if len(m_["fix"]) or len(m_["swap"]):
+        if len(m_["fix"]) or len(m_["swap"]) or len(m_.get("fixboth", ())):
             plan = ir.SteadyPlan(m)
+            for (n, v, c) in m_.get("fixboth", ()):
+                m.assign(**{n: (float(fr(v)), float(fr(c)))})
+                plan.fix(n)                      # level and change
             for (n, v) in m_["fix"]:
                 m.assign(**{n: float(fr(v))})
                 plan.fix_level(n)
@@ -67,7 +73,10 @@ def check(chk, ident, out, split, nvariants, flat_at="create", solver=None, star
         chk.notes.setdefault("did_not_complete", []).append("%s: %s" % (tag, type(ex).__name__))
         return False
     logv, logrep = set(m_["logv"]), set(m_["logrep"])
+    base_m = m_
     for vid in range(nvariants):
+        # the certificate of this variant
+        m_ = dict(base_m, level=base_m["alt"]["level"], change=base_m["alt"]["change"]) if (alt and vid == 1) else base_m
         mv = m.get_variant(vid) if nvariants > 1 else m
         lv, chg, par = mv.get_steady_levels(), mv.get_steady_changes(), mv.get_parameters()
         def val(d, n):
@@ -115,7 +124,7 @@ def run(chk):
     dump = chk.scratch.file("steady.dump")
     r = tlc.must_pass(tlc.run("SteadyMC", "SteadyMC.cfg", chk.scratch, dump=dump, workers=4, timeout=600), "SteadyMC")
     chk.add_tlc(r, "SteadyMC")
-    n = completed = 0
+    n = completed = nalt = 0
     per_model = {}
     for st in tlaval.parse_dump(dump, want=lambda b: "done = TRUE" in b):
         if not (st["out"]["holds"] and st["out"]["plan_ok"]):
@@ -127,6 +136,11 @@ def run(chk):
                     n += 1
                     completed += bool(ok)
                     per_model[st["sc"]] = per_model.get(st["sc"], 0) + bool(ok)
+                    if "alt" in st["out"]["m"] and nv == 2:
+                        ok4 = check(chk, st["sc"], st["out"], split, nv, flat_at, alt=True)
+                        n += 1
+                        completed += bool(ok4)
+                        nalt += 1
                     if not st["out"]["m"]["linear"] and nv == 1 and flat_at == "create":
                         # the optional solver: completion is not required, a completed solve must satisfy the equations
                         ok2 = check(chk, st["sc"], st["out"], split, nv, flat_at, solver="scipy_root")
@@ -143,6 +157,9 @@ def run(chk):
             chk.sample({"model": st["sc"], "source": list(st["out"]["src"]), "spec_levels": _plain(st["out"]["m"]["level"]), "spec_changes": _plain(st["out"]["m"]["change"]),
                         "plan_fix": _plain(st["out"]["m"]["fix"])})
     os.remove(dump)
+    if not nalt:
+        raise MachineryError("SteadyMC: no instance with an alternative parameterisation")
+    chk.notes["two_variant_runs_with_different_parameters"] = nalt
     vac = [k for k, v in per_model.items() if v == 0]
     if vac:
         raise MachineryError("SteadyMC: solve_steady completed in no configuration for %s (vacuous)" % vac)
